@@ -41,14 +41,14 @@ func req(id, entry, l string, ops []string, r string, clause string, ctx ...stri
 }
 
 var (
-	opGT  = []string{">"}
-	opGE  = []string{">="}
-	opLT  = []string{"<"}
-	opLE  = []string{"<="}
-	opNE  = []string{"!="}
-	opEQ  = []string{"=="}
-	opT   = []string{"true"}
-	opF   = []string{"false"}
+	opGT = []string{">"}
+	opGE = []string{">="}
+	opLT = []string{"<"}
+	opLE = []string{"<="}
+	opNE = []string{"!="}
+	opEQ = []string{"=="}
+	opT  = []string{"true"}
+	opF  = []string{"false"}
 )
 
 const (
